@@ -189,3 +189,23 @@ Fixpoint run_with (place : place_fun) (d : driver) (ops : list op) : driver :=
   | o :: r => run_with place (fst (step_with place d o)) r
   end.
 Definition run := run_with find_place.
+
+(* ------------------------------------------------------------------------------------------------------------- *)
+(* guard_C19_append_behind_freed_slots: no upload places segments while freed slots trail the last referenced one
+   (upload(force=True) frees without cleanup; so does free_program).  Under this guard the capacities never exceed
+   total_capacity; without it they can (ProofsDriver.capacity_overflow_witness). *)
+Definition pre_state (d : driver) (name : nat) (force : bool) : driver :=
+  if existsb (fun p => Nat.eqb (pg_name p) name) (dv_known d)
+  then (if force then fst (free_program d name) else d)
+  else d.
+Definition no_trailing_free (d : driver) : bool := Nat.eqb (first_free_of (dv_refs d)) (length (dv_refs d)).
+Definition op_guard (d : driver) (o : op) : bool :=
+  match o with
+  | OUpload name segs force => no_trailing_free (pre_state d name force) && forallb (fun s => 0 <=? snd s) segs
+  | _ => true
+  end.
+Fixpoint guard_C19_append_behind_freed_slots (d : driver) (ops : list op) : bool :=
+  match ops with
+  | [] => true
+  | o :: r => op_guard d o && guard_C19_append_behind_freed_slots (fst (step_with find_place d o)) r
+  end.
